@@ -207,6 +207,41 @@ def r09_5(ctx, fx):
                detail="inner polls %d, waker uses %d, Pending exits %d; Pending without waker: %s" % (np, nw, npend, [fn.path_sites(p) for n, p in bad]))
 
 
+def r09_7(ctx, fx):
+    """"keep-alive protocols keep the connection": a substream negotiated under a *fallback* name of a protocol carries that protocol's
+    keep-alive flag.  ProtocolSet::new builds the per-name flag table; in every closure of it that yields a (name, SubstreamKeepAlive)
+    pair the flag is read from a protocol context (`.keep_alive`) - never a constant (`map_or(No, ..)`, a literal) - and when the
+    context is looked up in `protocols`, the key is not the name the pair is filed under unless that name is the context's own
+    (fallback names are not keys of `protocols`: such a lookup misses and a default would silently apply)."""
+    from common import nested_closures
+    fn = ctx.fn(fx, "protocol::protocol_set::ProtocolSet::new", "R09.7")
+    if fn is None:
+        return
+    n = 0
+    for cl in nested_closures(fx, fn):
+        if "SubstreamKeepAlive)" not in cl.ret or not cl.ret.startswith("("):
+            continue
+        n += 1
+        ctx.bodies.add((fx.cfg, cl.key))
+        tup = [s_ for nd, s_ in cl.assigns() if s_["rv"]["r"] == "agg" and s_["rv"]["adt"] == "(tuple)" and s_["lhs"] == [0] and len(s_["rv"]["ops"]) == 2]
+        nm = cl.key[cl.key.index("::{closure"):]
+        for s_ in tup:
+            name_o, flag_o = s_["rv"]["ops"]
+            sh = cl.shape(flag_o)
+            rs = guards.rootstrs(cl, flag_o)
+            from_ctx = any(r[0] == "param" and r[2].endswith(".keep_alive") for r in cl.roots(flag_o)) or any(x.endswith("HashMap::get") for x in rs)
+            const = [x for x in sh if x in ("Yes", "No")] + [x for x in rs if x.startswith("const:") and "SubstreamKeepAlive" in x]
+            ctx.ob("R09.7", "ProtocolSet::new%s/flag-is-a-protocol's-own-keep_alive" % nm, from_ctx and not const, site=cl.site(cl.entry), cfg=fx.cfg,
+                   detail="shape %s, constant roots %s" % (sorted(sh), const))
+            gets = [c for c in cl.calls(r"HashMap(<.*>)?::get$")]
+            for g in gets:
+                kr = {x for x in guards.rootstrs(cl, g.args[1]) if x.startswith("param:")}
+                nr = {x for x in guards.rootstrs(cl, name_o) if x.startswith("param:")}
+                ctx.ob("R09.7", "ProtocolSet::new%s/context-looked-up-under-the-main-name" % nm, bool(kr) and not (kr & nr), site=cl.site(g.node), cfg=fx.cfg,
+                       detail="lookup key roots %s, filed-under name roots %s (the fallback name is not a key of `protocols`)" % (sorted(kr), sorted(nr)))
+    ctx.anchor("R09.7", "ProtocolSet::new: closures yielding (name, SubstreamKeepAlive)", n, 2, cfg=fx.cfg)
+
+
 def r09_6(ctx, fx):
     """ConnectionContext::{downgrade, try_upgrade} act on the handle whose connection id was compared: each ConnectionHandle::close /
     try_upgrade lies behind the equal edge of `<that same handle>.connection_id() == connection_id`.  Acting on the other handle upgrades
@@ -251,4 +286,5 @@ def run(ctx):
             r09_4(ctx, fx)
             r09_5(ctx, fx)
             r09_6(ctx, fx)
+            r09_7(ctx, fx)
         r09_2(ctx, fx)
